@@ -41,8 +41,18 @@ fn main() {
                 "held_across_pending_in_ready/flat_map_buffer",
                 "held_across_pending_in_ready/persist_replay",
                 "held_across_pending_in_finalize/accumulate_drain",
+                "held_across_pending_in_ready/flatten_buffer",
+                "held_across_pending_in_ready/flat_map_stream_item",
+                "held_across_pending_in_ready/filter_map_async_resolved",
+                "held_across_pending_in_ready/resolve_futures_queue",
+                "held_across_pending_in_finalize/keyed_flush",
+                "held_across_pending_in_finalize/sort_drain",
+                "held_across_pending_in_finalize/persist_replay",
                 "one_leg_pending_in_ready",
                 "second_leg_only_pending_in_finalize",
+                "first_leg_only_pending_in_finalize",
+                "hand_finalize_without_ready",
+                "hand_redundant_poll_ready",
                 "ready_pending",
                 "finalize_pending",
                 "pull_pending",
